@@ -9,6 +9,7 @@ R8.3 extend is prefix-preserving
 R8.4 re-mesh rescales to the third moment of the old distribution on the old grid
 R8.5 adaptive adjustment ends with minBins/maxBins classes or below the maximum
 R8.6 reset restores the initial grid; only the constructor writes the original* fields
+R8.9 the backup buffers always hold a snapshot of the grid the writing method leaves (revert installs them as the grid)
 R8.7 the model that loads a saved grid rebuilds the population balance from the saved (min,max,bins)
 """
 from __future__ import annotations
@@ -477,6 +478,61 @@ def r88(repo, ctx, index):
     ctx.floor('R8.8', n, 8)
 
 
+def r89(repo, ctx, index, states):
+    """revert() installs the backup buffers as the grid, so the buffers must hold a snapshot of a consistent grid at all times.
+    (1) ownership: `_prevPSD` / `_prevPSDbounds` are stored directly only by createBackup, as copies of PSD / PSDbounds taken
+    together; (2) every other method reaches them only by calling createBackup, and on every path that call comes after the
+    method's last write of the boundaries / class count / limits, so the snapshot is of the grid the method leaves (whose
+    consistency R8.2 decides).  A writer that parks zeros there makes a later revert() produce boundaries that do not increase."""
+    COPIES = ('copy.copy', 'np.copy', 'np.array', 'copy.deepcopy')
+    BUFS = {'_prevPSDbounds': 'PSDbounds', '_prevPSD': 'PSD'}
+    n = 0
+    for name, f in sorted(index.methods(KEY).items()):
+        stores = [st for st in ast.walk(f) if isinstance(st, (ast.Assign, ast.AugAssign, ast.AnnAssign)) for t in (U.flat_targets(st) if isinstance(st, ast.Assign) else [st.target])
+                  if U.chain(t) and U.chain(t)[0] == 'self' and len(U.chain(t)) >= 2 and U.chain(t)[1] in BUFS]
+        if not stores:
+            continue
+        n += 1
+        if name != 'createBackup':
+            ctx.violation('R8.9', PB, f'{CLS}.{name}', stores[0], f'{U.src(stores[0])[:70]}: the backup buffers are written outside createBackup, with something that is not a snapshot of the grid - '
+                          'revert() would install it as the grid (boundaries that do not increase from min to max, centres that are not midpoints)', construct=f'{name}: direct store to the backup buffers')
+            continue
+        ok = len(stores) == 2
+        for st in stores:
+            t = U.flat_targets(st)[0] if isinstance(st, ast.Assign) else st.target
+            buf = U.chain(t)[1]
+            v = st.value
+            ok = ok and isinstance(st, ast.Assign) and len(U.chain(t)) == 2 and isinstance(v, ast.Call) and (U.call_name(v) or '') in COPIES and len(v.args) >= 1 \
+                and U.chain(v.args[0]) == ('self', BUFS[buf])
+        ctx.check(ok, 'R8.9', PB, f'{CLS}.createBackup', f, 'createBackup stores copies of PSD and PSDbounds, taken together', 'createBackup does not store copies of both PSD and PSDbounds', construct='createBackup: snapshot')
+    ctx.floor('R8.9', n, 1)
+    SHAPE = {'PSDbounds', 'bins', 'min', 'max'}
+    m = 0
+    for name, outs in sorted(states.items()):
+        late = None
+        called = False
+        for o in outs:
+            seen_backup = False
+            depth_in_backup = 0
+            for e in o.events:
+                if e[0] == 'call' and len(e) >= 2 and e[1] == 'createBackup':
+                    seen_backup, called = True, True
+                    depth_in_backup += 1
+                elif e[0] == 'ret' and e[1] == 'createBackup':
+                    depth_in_backup = max(0, depth_in_backup - 1)
+                elif e[0] == 'write' and e[1] in SHAPE and seen_backup and depth_in_backup == 0 and late is None:
+                    late = e[1]
+        if not called or name == 'createBackup':
+            continue
+        m += 1
+        ctx.check(late is None, 'R8.9', PB, f'{CLS}.{name}', index.methods(KEY)[name], 'createBackup is called after the last write of the boundaries / class count / limits on every path',
+                  f'{late} is written after the snapshot was taken: the backup no longer matches the grid the method leaves', construct=f'{name}: snapshot after the grid is final')
+    rv = index.methods(KEY).get('revert')
+    if rv is not None:
+        reads = {U.chain(x)[1] for x in ast.walk(rv) if isinstance(x, ast.Attribute) and U.chain(x) and U.chain(x)[0] == 'self' and len(U.chain(x)) == 2 and isinstance(x.ctx, ast.Load)}
+        ctx.check({'_prevPSD', '_prevPSDbounds'} <= reads, 'R8.9', PB, f'{CLS}.revert', rv, 'revert restores from the two backup buffers', 'revert does not restore from the backup buffers')
+
+
 def check(repo, ctx, index, purity):
     ctx.explanation = EXPLANATION
     ctx.assumptions += ['numpy semantics of linspace/histogram(bin edges returned unchanged)/append as tabulated',
@@ -486,3 +542,4 @@ def check(repo, ctx, index, purity):
     r83_r86(repo, ctx, index, states)
     r87(repo, ctx, index)
     r88(repo, ctx, index)
+    r89(repo, ctx, index, states)
